@@ -201,6 +201,7 @@ func TestC15(t *testing.T) {
 		steps := 15 + rng.Intn(50)
 		reapedByTimeout, pruned := 0, 0
 
+		noCoords := rng.Intn(3) == 0
 		synctest.Test(t, func(t *testing.T) {
 			nw := simnet.New(int64(ci))
 			self := fmt.Sprintf("self-%d", ci)
@@ -214,6 +215,8 @@ func TestC15(t *testing.T) {
 				if override {
 					c.ReconnectTimeoutOverride = c15Override{}
 				}
+				// a third of the nodes run without network coordinates (reaping also cleans the coordinate cache)
+				c.DisableCoordinates = noCoords
 			}})
 			if err != nil {
 				setupErr = err.Error()
